@@ -1723,6 +1723,11 @@ func (p *scionPacketProcessor) process() disposition {
 	if disp := p.determinePeer(); disp != pForward {
 		return disp
 	}
+	// The SegID must be updated before any check that may answer with an SCMP error: the reply's
+	// path is derived from the packet's path on the assumption that the ingress update was done.
+	if disp := p.updateNonConsDirIngressSegID(); disp != pForward {
+		return disp
+	}
 	if disp := p.validateHopExpiry(); disp != pForward {
 		return disp
 	}
@@ -1739,9 +1744,6 @@ func (p *scionPacketProcessor) process() disposition {
 		return disp
 	}
 	if disp := p.validateSrcHost(); disp != pForward {
-		return disp
-	}
-	if disp := p.updateNonConsDirIngressSegID(); disp != pForward {
 		return disp
 	}
 	if disp := p.verifyCurrentMAC(); disp != pForward {
